@@ -1,6 +1,10 @@
 package ast
 
-import "github.com/ajitpratap0/GoSQLX/pkg/models"
+import (
+	"sync"
+
+	"github.com/ajitpratap0/GoSQLX/pkg/models"
+)
 
 // Spanned represents an AST node that has source location information
 type Spanned interface {
@@ -62,14 +66,22 @@ func (a *AST) Span() models.Span {
 // spanInfo stores source location information for AST nodes
 var spanInfo = make(map[interface{}]models.Span)
 
+// spanInfoMu guards spanInfo: SetSpan and GetSpan may be called from any goroutine.
+var spanInfoMu sync.RWMutex
+
 // SetSpan sets the source location span for an AST node
 func SetSpan(node interface{}, span models.Span) {
+	spanInfoMu.Lock()
 	spanInfo[node] = span
+	spanInfoMu.Unlock()
 }
 
 // GetSpan gets the source location span for an AST node
 func GetSpan(node interface{}) models.Span {
-	if span, ok := spanInfo[node]; ok {
+	spanInfoMu.RLock()
+	span, ok := spanInfo[node]
+	spanInfoMu.RUnlock()
+	if ok {
 		return span
 	}
 	return models.EmptySpan()
